@@ -234,8 +234,10 @@ def make_subscriber_cls():
                 except BaseException:   # noqa
                     pass
             elif what == 'cancel':
+                w.dirty = True
                 future.cancel()
             elif what == 'set_exception':
+                w.dirty = True
                 try:
                     future.set_exception(make_exc('simfault', 'reenter-%d' % self.tidx))
                 except Exception:
